@@ -41,6 +41,18 @@ def redispatch(chk, only):
     chk.absorb(core.run_harness(["chain", "replay", out], env={"VERIF_SEED": chk.seed}), "chain", only=only)
 
 
+def subrouter(chk, only):
+    """a router mounted inside a handler of another router: two contexts, two lazy writers, one commit on the wire"""
+    c = dict(c04.DEV)
+    c.update(MaxInt=127, AbortIdx=63, MaxG=1, MaxInner=2 if chk.tier != "thorough" else 3, Scripts={"R", "N", "A", "AS", "S", "W"})
+    res = core.run_tlc("MC_Subrouter", cfg_text=core.cfg(constants=c, invariants=["SubrouterOK", "Emit"]), timeout=900)
+    chk.expect_holds(res, "OneCommit over a request served by a mounted router")
+    chk.add_tlc(res, "mounted-router cases: global scripts x writer ops before the mount x inner chains")
+    out = os.path.join(core.scratch(), "subrouter.ndjson")
+    core.write_ndjson(out, res.lines)
+    chk.absorb(core.run_harness(["chain", "replay", out], env={"VERIF_SEED": chk.seed}), "chain", only=only)
+
+
 def run(chk):
     thorough = chk.tier == "thorough"
     chk.assumptions += [
@@ -52,6 +64,7 @@ def run(chk):
     instance(chk, "deep", 5 if thorough else 4, ["Sneg", "S201", "S404", "W0", "W1", "Wshort", "F", "E404"] if thorough
              else ["S0", "S201", "S404", "W1", "Werr", "F", "E404"])
     redispatch(chk, WR)
+    subrouter(chk, WR)
     # the built-in 404 / 405 / OPTIONS answers on a router without any middleware: one commit, with the right status
     c04.instance(chk, "builtin", "uniform", 1, 1, ["D404", "D405", "DOPT"], kinds=("default",), only=WR, extra_invs=("DispatchOK",))
     c04.library(chk, WR, maxn=3 if thorough else 2, extra=("N", "W"))
